@@ -32,7 +32,10 @@ def _perm_list(lst, perm, mode):
     """the same rows in another order.
     'iloc'    rows re-ordered, row labels travel with the rows (as a sort leaves them)
     'reset'   rows re-ordered, fresh labels 0..n-1 (unsorted construction)
-    'append'  built by appending one-row lists in the permuted order without sorting"""
+    'append'  built by appending one-row lists in the permuted order without sorting
+    'sorted'  unsorted construction (fresh labels) put back in time order by the library's sort: rows in time order, labels permuted
+    'append_sort'  built by appending one-row lists in the permuted order, each with sort=True
+    'concat'  two lists (each with labels 0..k-1) concatenated by the library's append, the later half of the order first"""
     cls = type(lst)
     if len(lst) == 0:
         return lst
@@ -46,11 +49,32 @@ def _perm_list(lst, perm, mode):
         for i in perm[1:]:
             acc = acc.append(lst[i:i + 1])
         return acc
+    if mode == "sorted":
+        return cls(lst.df.iloc[list(perm)].reset_index(drop=True)).sorted()
+    if mode == "append_sort":
+        acc = cls(lst[perm[0]:perm[0] + 1].df.reset_index(drop=True))
+        for i in perm[1:]:
+            acc = acc.append(lst[i:i + 1], sort=True)
+        return acc
+    if mode == "concat":
+        k = len(perm) // 2
+        a = cls(lst.df.iloc[list(perm[k:])].reset_index(drop=True))
+        b = cls(lst.df.iloc[list(perm[:k])].reset_index(drop=True))
+        return a.append(b) if len(b) else a
     raise ValueError(mode)
 
 
 def _chart_of(obj):
-    return obj.maps[0] if hasattr(obj, "maps") else obj
+    # the chart under test: the only chart of a one-chart mapset, or the chart at the marked place of a larger set
+    return obj.maps[getattr(obj, "_c15_at", 0)] if hasattr(obj, "maps") else obj
+
+
+def _int_typed(lst):
+    """the same list with its whole-number time columns held as int64 (charts read from integer formats / built from ints)"""
+    if len(lst) == 0:
+        return lst
+    cast = {c: "int64" for c in ("offset", "length") if c in lst.df.columns and all(float(x).is_integer() for x in lst.df[c])}
+    return type(lst)(lst.df.astype(cast)) if cast else lst
 
 
 def _make(spec, perms, mode):
@@ -65,8 +89,17 @@ def _make(spec, perms, mode):
                 sp[name] = [sp[name][i] for i in perm]
                 if isinstance((sp.get("labels") or {}).get(name), list):
                     sp["labels"][name] = [sp["labels"][name][i] for i in perm]
-    obj = build(dict(game=game, maps=[sp])) if game in ("sm", "o2j") else build(sp)
+    if game in ("sm", "o2j"):
+        # spec['set_before'] / ['set_after']: other charts of the same set, around the chart under test
+        before, after = list(spec.get("set_before") or []), list(spec.get("set_after") or [])
+        obj = build(dict(game=game, maps=before + [{k: v for k, v in sp.items() if k not in ("set_before", "set_after")}] + after))
+        obj._c15_at = len(before)
+    else:
+        obj = build(sp)
     m = _chart_of(obj)
+    if spec.get("dtype") == "int":
+        for name, l in chart_lists(m).items():
+            setattr(m, name, _int_typed(l))
     if mode == "reverse_sort":
         for name, l in chart_lists(m).items():
             if len(l):
@@ -280,6 +313,48 @@ def _ops(game):
     if game == "o2j":
         for nm, f in (("O2JToOsu", lambda o: O2JToOsu.convert(o)), ("O2JToQua", lambda o: O2JToQua.convert(o)), ("O2JToSM", lambda o: O2JToSM.convert(o)), ("O2JToBMS", lambda o: O2JToBMS.convert(o))):
             add("convert_" + nm, (lambda o, f=f: _canon(f(o))))
+    # ---- other entry points / argument values / operation sequences (EXTRA_OPS: run on the joint cases of every chart)
+    def via_file(o, suffix, mode="r"):
+        import os
+        import pathlib
+        import tempfile
+
+        fd, path = tempfile.mkstemp(suffix=suffix)
+        os.close(fd)
+        try:
+            o.write_file(pathlib.Path(path))
+            with (open(path, "rb") if mode == "rb" else open(path, "r", encoding="utf8", newline="")) as fh:
+                return fh.read()
+        finally:
+            os.unlink(path)
+
+    def x(name, fn, clause):
+        EXTRA_OPS.add(name)
+        add(name, fn, clause)
+
+    if game == "osu":
+        x("write_file_text", lambda o: _osu_text([via_file(o, ".osu")]), "osu_write_file_text")
+        x("convert_OsuToBMS_default_shift", lambda o: _canon(OsuToBMS.convert(o)), "convert_OsuToBMS")
+        x("convert_then_write_text", lambda o: _qua_text(OsuToQua.convert(o, raise_bad_mode=False).write()), "sequence_convert_write")
+        x("rate_then_write_text", lambda o: _osu_text(o.rate(0.75).write()), "sequence_rate_write")
+    if game == "qua":
+        x("write_file_text", lambda o: _qua_text(via_file(o, ".qua")), "qua_write_file_text")
+        x("convert_then_write_text", lambda o: _osu_text(QuaToOsu.convert(o).write()), "sequence_convert_write")
+        x("rate_then_write_text", lambda o: _qua_text(o.rate(0.75).write()), "sequence_rate_write")
+    if game == "bms":
+        from reamber.bms.BMSChannel import BMSChannel
+
+        x("write_file_text", lambda o: _bms_text(via_file(o, ".bms", "rb")), "bms_write_file_text")
+        x("write_text_other_layout_and_placeholder", lambda o: _bms_text(o.write(BMSChannel.PMS, b"0Z")), "bms_write_text")
+        x("convert_then_write_text", lambda o: _osu_text(BMSToOsu.convert(o).write()), "sequence_convert_write")
+        x("rate_then_write_text", lambda o: _bms_text(o.rate(0.75).write()), "sequence_rate_write")
+    if game == "sm":
+        x("write_file_text", lambda o: _sm_text(via_file(o, ".sm")), "sm_write_file_text")
+        x("convert_then_write_text", lambda o: [_osu_text(m.write()) for m in SMToOsu.convert(o)], "sequence_convert_write")
+        x("rate_then_write_text", lambda o: _sm_text(o.rate(0.75).write()), "sequence_rate_write")
+    if game == "o2j":
+        x("convert_then_write_text", lambda o: [_osu_text(m.write()) for m in O2JToOsu.convert(o)], "sequence_convert_write")
+    x("rate_slower", lambda o: _canon(o.rate(0.75)), "rate")
     add("rate", lambda o: _canon(o.rate(1.5)))
     add("full_ln", lambda o: _canon(full_ln(c(o))))
     add("full_ln_gap", lambda o: _canon(full_ln(c(o), gap=60, ln_as_hit_thres=30)), "full_ln")
@@ -296,6 +371,8 @@ def _ops(game):
 
 
 DEPENDS_ON_DOMINANT = ("scroll_speed", "sv_normalize")
+#: names of the operations that exercise other entry points (write_file), other argument values and sequences of two operations
+EXTRA_OPS = set()
 
 
 def _hs_other():
@@ -310,14 +387,18 @@ def _hs(o, as_source):
 
     other = build(_hs_other())
     res = hitsound_copy(o, other) if as_source else hitsound_copy(other, o)
-    notes, sounds = [], []
+    notes, sounds, per_time = [], [], collections.Counter()
     for name in ("hits", "holds"):
         df = getattr(res, name).df
         for r in df.to_dict("records"):
             notes.append((float(r["offset"]), int(r["column"]), float(r.get("length", 0.0) or 0.0)))
             sounds.append((float(r["offset"]), int(r["hitsound_set"]), int(r["sample_set"]), int(r["addition_set"]), int(r["custom_set"]), int(r["volume"]), str(r["hitsound_file"])))
+            per_time[float(r["offset"])] += 1
     samples = [(float(r["offset"]), str(r["sample_file"]), int(r["volume"])) for r in res.samples.df.to_dict("records")]
-    return dict(notes=sorted(notes), sounds=sorted(sounds), samples=sorted(samples))
+    # the same picture without the volume of SOUNDLESS notes that share their time with another note: which of several notes at one
+    # time receives a copied sound is free, and the notes passed over keep the target's own volume (a class of its own, see _run_case_)
+    alt = [(t, h, ss, a, c, (-1 if per_time[t] > 1 and (h, ss, a, c, f) == (0, 0, 0, 0, "") else v), f) for (t, h, ss, a, c, v, f) in sounds]
+    return dict(notes=sorted(notes), sounds=sorted(sounds), samples=sorted(samples), _alt_sounds=sorted(alt))
 
 
 # ---------------------------------------------------------------------------------------------------------------- cases
@@ -336,6 +417,16 @@ def _base_result(spec, opname, fn):
 
 def _run_case(case, stats=None):
     """case: dict(spec=, perms={list: permutation}, mode='construct'|'iloc'|'reset'|'append'|'reverse_sort', ops=None|[names])"""
+    import logging
+
+    logging.disable(logging.WARNING)  # (the library logs a line per re-seated tempo point)
+    try:
+        return _run_case_(case, stats)
+    finally:
+        logging.disable(logging.NOTSET)
+
+
+def _run_case_(case, stats=None):
     spec, perms, mode = case["spec"], case.get("perms") or {}, case["mode"]
     game = spec["game"]
     out = []
@@ -361,7 +452,13 @@ def _run_case(case, stats=None):
             if stats is not None:
                 stats["comparisons_skipped_because_dominant_bpm_differs"] = stats.get("comparisons_skipped_because_dominant_bpm_differs", 0) + 1
             continue
-        d = _cmp(base, got)
+        if clause == "hitsound_copy":
+            d = _cmp({k: v for k, v in base.items() if k != "_alt_sounds"}, {k: v for k, v in got.items() if k != "_alt_sounds"})
+            if d and not _cmp(dict(base, sounds=base["_alt_sounds"]), dict(got, sounds=got["_alt_sounds"])):
+                # the only difference: the volume of soundless notes that share their time with a note that received the copied sound
+                clause = "hitsound_copy_volume_of_tied_target_notes"
+        else:
+            d = _cmp(base, got)
         if d and clause.startswith("convert_") and spec.get("labels"):
             # lists with non-default row labels: kept apart from the default-label charts (converters align rows by label)
             clause = clause + "_relabelled_lists"
@@ -407,6 +504,47 @@ def _specs(game):
     return out
 
 
+def _edge_specs(game):
+    """charts for the input dimensions the fixed charts above hold constant (still without ambiguous ties inside one list):
+    a chart without hits; times shared ACROSS lists and boundary values; sub-millisecond and x.5 times; int-typed columns;
+    non-default row labels on EVERY list; (osu, qua) negative and far times; (sm, o2j) the chart inside a larger set"""
+    sv = game in ("osu", "qua")
+    f = 1 if game == "bms" else 0
+    osx = dict(samples=[(300, "a.wav", 40), (100, "b.wav", 50), (900, "c.wav", 60)]) if game == "osu" else {}
+    smx = dict(mines=[(750, 1), (250, 2)], rolls=[(5000, 2, 250), (5500, 3, 125)], fakes=[(4500, 0), (4750, 1)], lifts=[(5500, 1), (5750, 2)], keysounds=[(5750, 3), (6000, 0)]) if game == "sm" else {}
+    out = []
+    out.append(("edge_no_hits", std_spec(game, hits=[], holds=[(0, f, 250), (1000, 2, 500), (1000, 3, 125), (3000, 1 + f, 250)], bpms=[(0, 120), (2000, 90), (4000, 180)],
+                                         **({"svs": [(500, 2.0), (1500, 0.5)]} if sv else {}))))
+    # notes at time 0, notes / hold heads / hold tails exactly on tempo changes and on SVs, an SV on the first tempo row and on a tempo change,
+    # several notes at one time in different columns, a hold of length 0 (osu, qua, o2j: formats with an end TIME; in a .bms / .sm grid
+    # head and end of such a hold share one cell of one lane - a tie inside one lane, which file order decides - so those get 250 ms)
+    zero = 250 if game in ("bms", "sm") else 0
+    out.append(("edge_coincident", std_spec(game, hits=[(0, f), (0, 2 + f), (1000, 2 + f), (2000, f), (2000, 2 + f), (4000, 3 + f)],
+                                            holds=[(0, 3 + f, 1000), (1000, 1 + f, 1000), (3000, 3 + f, zero), (4000, 2 + f, 1000)],
+                                            bpms=[(0, 120), (1000, 240), (2000, 60), (4000, 120)], **({"svs": [(0, 2.0), (1000, 0.5), (4000, 1.5), (5000, 1.0)]} if sv else {}),
+                                            **({"samples": [(0, "a.wav", 40), (1000, "b.wav", 50), (4000, "c.wav", 60)]} if game == "osu" else {}))))
+    out.append(("edge_fractional", std_spec(game, hits=[(0.5, f), (333.333, 1 + f), (1000.999, 2), (2500.5, 3), (2501.5, f)], holds=[(1500.5, f, 249.75), (3000.25, 2, 500.5), (3999.999, 3, 0.5 + zero)],
+                                            bpms=[(0, 128.571), (1866.6729, 177.77), (4000.5, 99.999)], **({"svs": [(100.5, 0.333), (2100.75, 1.75), (2100.25, 0.01)]} if sv else {}),
+                                            **({"samples": [(300.5, "a.wav", 40), (100.25, "b.wav", 50)]} if game == "osu" else {}))))
+    small = dict(hits=[(0, f), (250, 1 + f), (1625, 2), (1625, 3)], holds=[(2000, 3, 750), (3000, f, 125), (4000, 2, 500)], bpms=[(0, 120), (4000, 240), (6000, 180)],
+                 **({"svs": [(100, 1.5), (2100, 0.5), (1000, 2.0)]} if sv else {}), **osx, **smx)
+    out.append(("edge_int_typed", dict(std_spec(game, **small), dtype="int")))
+    out.append(("edge_all_labels", std_spec(game, **small, labels=dict(hits="rev", holds="after", bpms="gappy", svs="mask", samples="gappy", mines="rev", rolls="gappy", fakes="mask", lifts="after",
+                                                                      keysounds="gappy"))))
+    if game == "osu":
+        # two notes at one time with different volumes of their own, where the other chart of hitsound_copy has ONE sound (at 500 ms)
+        out.append(("edge_hitsound_tied_target", std_spec("osu", hits=[(0, 0), (500, 3), (500, 1), (1000, 2)], holds=[(2000, 1, 100)], bpms=[(0, 120)])))
+    if sv:
+        out.append(("edge_negative_and_far", std_spec(game, hits=[(-500, 0), (0, 1), (250, 2), (1234567.891, 3)], holds=[(-250, 3, 500), (1234000, 0, 567.5)], bpms=[(-1000, 120), (1000, 240), (600000, 90)],
+                                                      svs=[(-750, 0.5), (500, 2.0), (1234500, 0.25)])))
+    if game in ("sm", "o2j"):
+        inner = std_spec(game, **small)
+        inner["set_before"] = [std_spec(game, hits=[(0, 0), (500, 1)], holds=[], bpms=[(0, 120), (4000, 240), (6000, 180)])]  # a chart without holds
+        inner["set_after"] = [std_spec(game, hits=[], holds=[(1000, 2, 250)], bpms=[(0, 120), (4000, 240), (6000, 180)])]  # a chart without hits
+        out.append(("edge_middle_of_a_set", inner))
+    return out
+
+
 def _random_spec(game, rng, big):
     """random chart without ambiguous ties: distinct tempo / SV times, one object per (column, time), holds that do not overlap
     anything in their column; objects on a 125 ms grid; rows in random (unsorted) order"""
@@ -447,18 +585,55 @@ def _random_spec(game, rng, big):
             kw[k2] = lists[k2]
     for v in list(lists.values()) + [bpms] + [kw.get("svs", [])]:
         rng.shuffle(v)
-    return std_spec(game, hits=lists["hits"], holds=lists["holds"], bpms=bpms, **kw)
+    sp = std_spec(game, hits=lists["hits"], holds=lists["holds"], bpms=bpms, **kw)
+    # mixtures: a third of the random charts carry non-default row labels on a random subset of ALL their lists (as filters, sorts
+    # and edits leave them), a quarter hold their (whole-ms) times in int-typed columns
+    if rng.random() < 0.35:
+        lab = {k: rng.choice(["gappy", "rev", "after", "mask"]) for k in LIST_ORDER if isinstance(sp.get(k), list) and sp[k] and rng.random() < 0.6}
+        if lab:
+            sp["labels"] = lab
+    if rng.random() < 0.25:
+        sp["dtype"] = "int"
+    return sp
 
 
 def _list_sizes(spec):
     return {k: len(spec[k]) for k in LIST_ORDER if k in spec and isinstance(spec[k], list) and len(spec[k]) > 1}
 
 
-def _cases_for(spec, rng, n_random, quick, singles=True):
+def _joint(ident, how, rng):
+    perms = {}
+    for k, v in ident.items():
+        p = v[::-1] if how == "rev" else v[1:] + v[:1]
+        if how == "rnd":
+            p = list(v)
+            rng.shuffle(p)
+        perms[k] = p
+    return perms
+
+
+def _is_joint(case):
+    """all lists of the chart re-ordered together (or reverse sort): these cases also run EXTRA_OPS"""
+    return case["mode"] == "reverse_sort" or set(case.get("perms") or {}) == set(_list_sizes(case["spec"]))
+
+
+def _cases_for(spec, rng, n_random, quick, singles=True, edge=False):
     sizes = _list_sizes(spec)
     small = all(n <= 4 for n in sizes.values())
     cases = [dict(mode="reverse_sort", perms={})]
     ident = {k: list(range(n)) for k, n in sizes.items()}
+    if edge:
+        # quick: one joint re-ordering for each KIND of result (unsorted rows + fresh labels, unsorted rows + travelling labels, rows in time
+        # order + permuted labels, concatenation); otherwise three per history
+        plan = (("construct", "rev"), ("iloc", "rot"), ("sorted", "rnd"), ("concat", "rnd")) if quick else (
+            ("construct", "rev"), ("iloc", "rot"), ("reset", "rnd"), ("append", "rnd"), ("sorted", "rev"), ("append_sort", "rot"), ("concat", "rev"))
+        for mode, how in plan:
+            cases.append(dict(mode=mode, perms=_joint(ident, how, rng)))
+            for how2 in (() if quick else ("rnd", "rot" if how != "rot" else "rev")):
+                cases.append(dict(mode=mode, perms=_joint(ident, how2, rng)))
+        for i in range(n_random):
+            cases.append(dict(mode=["construct", "iloc", "reset", "append", "sorted", "concat"][i % 6], perms=_joint(ident, "rnd", rng)))
+        return cases
     if small:
         # every permutation of every list on its own (the other lists keep their order) ...
         for name, n in (sizes.items() if singles else ()):
@@ -472,6 +647,9 @@ def _cases_for(spec, rng, n_random, quick, singles=True):
         for mode in ("construct", "iloc", "reset", "append"):
             cases.append(dict(mode=mode, perms={k: v[::-1] for k, v in ident.items()}))
             cases.append(dict(mode=mode, perms={k: v[1:] + v[:1] for k, v in ident.items()}))
+    # the other histories named by the property: sort after an unsorted construction, append(sort=True), concatenation of two lists
+    for mode, how in (("sorted", "rev"), ("concat", "rot")) + ((("append_sort", "rot"), ("sorted", "rnd"), ("concat", "rnd")) if not quick else ()):
+        cases.append(dict(mode=mode, perms=_joint(ident, how, rng)))
     for i in range(n_random):
         perms = {}
         for k, v in ident.items():
@@ -482,49 +660,92 @@ def _cases_for(spec, rng, n_random, quick, singles=True):
     return cases
 
 
+_HISTORY_PRIORITY = dict(construct=0, reverse_sort=1, sorted=2, iloc=3, concat=4, append=5, reset=6, append_sort=7)
+
+
 def _c15_game(rep, game):
     rng = rep.rng
     quick = rep.tier == "quick"
     stats = {}
     n = 0
     stopped = False
+    by_mode = {}
     all_ops = [nm for nm, _, _ in _ops(game)]
-    specs = list(_specs(game))
+    specs = list(_specs(game)) + list(_edge_specs(game))
     rs = [(f"random_small_{i}", _random_spec(game, rng, False)) for i in range(rep.n(3, 16))]
     rl = [(f"random_larger_{i}", _random_spec(game, rng, True)) for i in range(rep.n(1, 8))]
     while rs or rl:  # interleaved, so that a time budget cuts both kinds alike
         specs += rs[:2] + rl[:1]
         rs, rl = rs[2:], rl[1:]
+    plan = []
     for label, spec in specs:
         small = all(v <= 4 for v in _list_sizes(spec).values())
         n_random = rep.n(4, 12) if small else rep.n(8 if game in ("sm", "bms") else 12, 30)
         if quick and label.startswith("random_larger"):
             n_random = 6
         # the two hitsound charts exist for hitsound_copy (and the writer); elsewhere hitsound_copy runs on the 'small' chart only
-        if label in ("hitsounds", "plain_notes"):
+        if label in ("hitsounds", "plain_notes", "edge_hitsound_tied_target"):
             ops = ["hitsound_copy_as_source", "hitsound_copy_as_target", "write_reread", "write_text"]
         elif label != "small" and quick:
             ops = [o for o in all_ops if not o.startswith("hitsound_copy")]
         else:
-            ops = None
-        for cs in _cases_for(spec, rng, n_random, quick, singles=not (quick and label.startswith("random"))):
-            if rep.out_of_time(40, 300):
+            ops = list(all_ops)
+        edge = label.startswith("edge_")
+        if edge:
+            n_random = rep.n(0, 6)
+        cases = []
+        for cs in _cases_for(spec, rng, n_random, quick, singles=not (quick and label.startswith("random")), edge=edge):
+            case = dict(spec=spec, ops=ops, **cs)
+            # one list re-ordered on its own: the plain operations; joint cases add write_file, other arguments, sequences (quick: on the
+            # reverse-sorted, the unsorted-construction and the sorted-after-construction charts)
+            if not _is_joint(case) or (quick and cs["mode"] not in ("reverse_sort", "construct", "sorted")):
+                case["ops"] = [o for o in ops if o not in EXTRA_OPS]
+            cases.append(case)
+        # joint re-orderings first - one of each history (unsorted construction, reverse sort, sort(), labels travelling, concatenation, ...)
+        # before the second of any - then the single-list permutations
+        seen_modes, keyed = {}, []
+        for case in cases:
+            single = not _is_joint(case)
+            k = seen_modes.get((single, case["mode"]), 0)
+            seen_modes[(single, case["mode"])] = k + 1
+            keyed.append(((single, k, _HISTORY_PRIORITY.get(case["mode"], 9)), len(keyed), case))
+        keyed.sort(key=lambda x: (x[0], x[1]))
+        plan.append((label, [c for _, _, c in keyed]))
+    # round robin over the charts: a time budget on a busy machine thins every chart's cases instead of dropping whole charts
+    for r in range(max(len(c) for _, c in plan)):
+        for label, cases in plan:
+            if r >= len(cases) or stopped:
+                continue
+            if rep.out_of_time(50, 360):
                 stopped = True
                 break
-            case = dict(spec=spec, ops=ops, **cs)
+            case = cases[r]
+            by_mode[case["mode"]] = by_mode.get(case["mode"], 0) + 1
             rep.case(case, nontrivial=True)
             n += 1
             for what, d in _run_case(case, stats):
                 rep.fail(what, case, f"{label}: {d}")
+        if stopped:
+            break
+    rep.extra["cases_planned"] = sum(len(c) for _, c in plan)
     rep.extra.update(stats)
     rep.extra["stopped_by_time_budget"] = stopped
     rep.extra["operations"] = [nm for nm, _, _ in _ops(game)]
-    rep.bound = (f"{game}: {len(_specs(game))} fixed charts + {rep.n(3, 16)} random small and {rep.n(1, 8)} random larger charts (tempo witness, small with all lists,{' two holds in one column,' if game == 'bms' else ''} gappy / filtered labels, empty lists, a larger one"
-                 f"{', notes with and without hitsounds of their own' if game == 'osu' else ''}); per chart: reverse sort; for charts with <= 4 rows per list ALL permutations of each list on its own{' (fixed charts)' if quick else ''} "
+    rep.extra["operations_on_joint_cases_only"] = sorted(EXTRA_OPS & set(all_ops))
+    rep.extra["cases_per_history"] = by_mode
+    n_edge = len(_edge_specs(game))
+    rep.bound = (f"{game}: {len(_specs(game))} fixed charts + {n_edge} edge charts + {rep.n(3, 16)} random small and {rep.n(1, 8)} random larger charts (tempo witness, small with all lists,{' two holds in one column,' if game == 'bms' else ''} gappy / filtered labels, empty lists, a larger one"
+                 f"{', notes with and without hitsounds of their own' if game == 'osu' else ''}; edge: no hits at all; times shared across lists (notes, hold heads and tails, SVs on tempo changes and at time 0{'' if game in ('bms', 'sm') else ', a hold of length 0'}); "
+                 f"sub-ms and x.5 times with non-integer tempos; int-typed time columns; non-default row labels on every list{'; negative and far (20 min) times' if game in ('osu', 'qua') else ''}"
+                 f"{'; two notes at one time with different volumes of their own where hitsound_copy has one sound to place (clause hitsound_copy_volume_of_tied_target_notes)' if game == 'osu' else ''}"
+                 f"{'; the chart in the middle of a 3-chart set between a chart without holds and a chart without hits' if game in ('sm', 'o2j') else ''}; random charts: 35% with non-default labels on a random subset of all lists, 25% int-typed); "
+                 f"per chart: reverse sort; for charts with <= 4 rows per list ALL permutations of each list on its own{' (fixed charts)' if quick else ''} "
                  f"(labels travelling{'' if quick else ', and by construction'}), all lists reversed / rotated together in 4 histories (construction, re-ordered with labels, re-ordered with fresh labels, "
-                 f"append without sort) + {rep.n(4, 12)} random joint shuffles; larger chart: {rep.n(12, 30)} (sm/bms quick: 8) random joint shuffles; every case runs "
-                 f"{len(_ops(game))} operations; {n} cases")
-    rep.rule = "a case is (chart, permutation of its lists, history that produced the order); f(chart) vs f(permuted chart) for every operation f"
+                 f"append without sort) + sort after unsorted construction + concatenation of two lists{'' if quick else ' + append(sort=True)'} + {rep.n(4, 12)} random joint shuffles; larger chart: {rep.n(12, 30)} (sm/bms quick: 8) random joint shuffles; "
+                 f"edge charts: reverse sort + {'4' if quick else '21 + 6 random'} joint re-orderings over the histories construction / labels travelling / sort() / concatenation{'' if quick else ' / fresh labels / append / append(sort=True)'}; every case runs "
+                 f"{len(all_ops) - len(EXTRA_OPS & set(all_ops))} operations, the joint cases{' of the histories reverse sort / construction / sort()' if quick else ''} {len(EXTRA_OPS & set(all_ops))} more (write_file, other argument values: rate 0.75{', other layout + placeholder' if game == 'bms' else ''}"
+                 f"{', default column shift' if game == 'osu' else ''}; sequences convert -> write and rate -> write); cases are run round robin over the charts, joint re-orderings first; {n} cases, per history {by_mode}")
+    rep.rule = "a case is (chart, permutation of its lists, history that produced the order); f(chart) vs f(permuted chart) for every operation f (incl. write_file and two-operation sequences on the joint cases)"
 
 
 def _mk(game):
